@@ -274,7 +274,8 @@ SrcReqs == LET real == IF Alphabet = "full" THEN UNION {AnyOpt(S, LineOpts) : S 
                                 f \in {g \in real : Cardinality(DOMAIN g) <= 1}}
 FnOpts(n) == {"cfalse", "hit2", "log"}
 FnReqs == IF Focus THEN UNION {OneOpt(S, FnOpts) : S \in {{}} \cup {{m} : m \in {x \in DOMAIN FnPlaces : FnPlaces[x] # {}}}}
-          ELSE UNION {OneOpt(S, FnOpts) : S \in {T \in SUBSET (DOMAIN FnPlaces) : Cardinality(T) <= 2}}
+          ELSE UNION {OneOpt(S, FnOpts) : S \in {T \in SUBSET (DOMAIN FnPlaces) :
+                                                    Cardinality(T) <= 1 \/ (Cardinality(T) = 2 /\ \A n \in T : FnPlaces[n] # {})}}
 InsnOpts(a) == IF a \in InsnOk THEN {"cfalse", "log"} ELSE {}
 InsnReqs == IF Focus THEN UNION {OneOpt(S, InsnOpts) : S \in {{}} \cup {{a} : a \in InsnOk}}
             ELSE UNION {OneOpt(S, InsnOpts) : S \in {{}} \cup {{a} : a \in InsnOk} \cup {{b} : b \in InsnBogus}
